@@ -62,6 +62,7 @@ class SurfaceSubdivision(Logger):
             A,B,C,D = self.mesh.faces[face_id]
             self.mesh.faces[face_id] = [A,B,D]
             self.mesh.faces.append([B,C,D])
+            self.mesh.edges.append(keyify(B,D)) # the diagonal is a new edge
         else:
             self.split_face_as_fan(face_id)
 
